@@ -59,6 +59,7 @@ var dstKinds = []string{
 	"missing", "existing-shorter", "existing-longer", "existing-same-length", "same-path", "dot-slash-spelling", "dotdot-spelling",
 	"symlink-to-source", "hardlink-of-source", "is-a-directory", "parent-missing", "parent-is-a-file",
 	"other-mount-missing", "other-mount-existing", "dangling-symlink", "symlink-to-other-file", "symlink-on-other-mount-to-source",
+	"through-directory-symlink", "through-directory-symlink-other-name",
 }
 
 type scenario struct {
@@ -172,6 +173,13 @@ func build(s scenario) (src, dst string, steps []func(fsops)) {
 	case "symlink-on-other-mount-to-source":
 		dst = "M/alias.bin"
 		steps = append(steps, func(f fsops) { f.symlink(srcTarget, "M/alias.bin") })
+	case "through-directory-symlink":
+		// the source's own directory entry, reached through a symlink to its directory
+		dst = "W/dlink/src.bin"
+		steps = append(steps, func(f fsops) { f.symlink("W/", "W/dlink") })
+	case "through-directory-symlink-other-name":
+		dst = "W/dlink/fresh.bin"
+		steps = append(steps, func(f fsops) { f.symlink("W/", "W/dlink") })
 	case "dangling-symlink":
 		dst = "W/dangling.bin"
 		steps = append(steps, func(f fsops) { f.symlink("W/nowhere.bin", "W/dangling.bin") })
